@@ -25,6 +25,8 @@ type Entry struct {
 	Hooks int
 	// Extra paths (cross-path worlds); path 0 is always the entry's own.
 	Extra []world.PathSpec
+	// Companion: further files of the entry's own path, present in every world built from it.
+	Companion []world.FileSpec
 }
 
 func ext(count, forEach, dyn, self bool) *schema.BodyExtensions {
@@ -334,6 +336,7 @@ func Structures() []Entry {
 		"res \"a\" \"n\" {\n  \n}\n",
 		"res \"\" \"n\" {\n}\n",
 		"res \"aws\" {\n}\nres {\n}\n",
+		"res \"aws\" \"a\" {\n}\n/* \u017e */ res \"a\" \"n\" {\n}\n",
 	)
 
 	add("dep-2labels", func() *schema.BodySchema {
@@ -354,6 +357,8 @@ func Structures() []Entry {
 		"two \"x\" \"y\" {\n  m_xy = \"1\"\n  rq = \"r\"\n}\ntwo \"y\" \"x\" {\n  m_yx = \"1\"\n  m_xy = \"no\"\n}\n",
 		"two \"x\" \"\" {\n}\ntwo \"x\" {\n}\n",
 		"tw\n",
+		// multi-byte text in front of a label, on a line that is not the first
+		"two \"x\" \"y\" {\n}\n/* \u00e9 */ two \"x\" \"y\" {\n}\ntwo \"\u00e9\" \"x\" {\n}\n",
 	)
 
 	// --- dependent bodies keyed by attribute value ---------------------------------------------
@@ -487,6 +492,20 @@ func Structures() []Entry {
 			"b \"n\" {\n  dynamic \"\" {\n  }\n  dynamic {\n  }\n  dynamic \"nope\" {\n    content {\n    }\n  }\n}\n",
 			"b \"n\" {\n  c\n  xa = \n}\n",
 		)
+	}
+
+	// the all-extensions schema again, in a path that has a second file whose one block declares count, for_each
+	// and self references over a byte range that covers every offset of the file under test
+	{
+		last := out[len(out)-1]
+		out = append(out, Entry{ID: "S:ext-twofiles", Mk: last.Mk, Family: "struct", Hooks: -1,
+			Seeds: []string{
+				"b \"n\" {\n  xa = each.key\n  ya = count.index\n  inner {\n    z = self.xa\n  }\n}\n",
+				"b \"n\" {\n  xa = \n  ya = \n}\n",
+				"b \"n\" {\n  inner {\n    z = \n  }\n}\nb \"m\" {\n  count = 1\n  ya = count.index\n}\n",
+			},
+			Companion: []world.FileSpec{{Name: "zz.tf", Text: "b \"other\" {\n  count = 2\n  for_each = { a = \"x\" }\n  xa = \"pad pad pad pad pad pad pad pad pad pad pad pad pad pad pad pad pad pad pad pad pad pad pad pad pad pad pad pad\"\n  ya = count.index\n  inner {\n    z = each.key\n  }\n  inner {\n    z = self.xa\n  }\n}\n"}},
+		})
 	}
 
 	// --- block addresses -------------------------------------------------------------------------
